@@ -239,7 +239,7 @@ def _run(ctx):
         raise V.Inconclusive("the exhaustive model run did not complete")
 
     simdir = ctx.sub("sim")
-    nsim = 10 if quick else 40
+    nsim = 8 if quick else 40
     rs = V.tlc(ctx, "MC_ZSync", "MC_ZSync_sim.cfg", workers=1, timeout=300, tag="simulate",
                simulate="file=%s,num=%d" % (os.path.join(simdir, "b"), nsim), depth=70, seed=ctx.seed)
     nfiles = len([f for f in os.listdir(simdir) if f.startswith("b_")])
@@ -254,7 +254,7 @@ def _run(ctx):
     if quick:
         stages = [
             ("mem-sim", "mem", sim + ["-seed", seed, "-n", "60"]),
-            ("mem-random", "mem", ["-random", "5", "-len", "45", "-seed", seed, "-n", "90"]),
+            ("mem-random", "mem", ["-random", "4", "-len", "40", "-seed", seed, "-n", "90"]),
             ("pebble-random", "pebble", ["-random", "3", "-len", "40", "-seed", str(ctx.seed + 50), "-n", "90"]),
             # regression stage for ee3b302 (restart of a pebble receiver from its snapshot): strict
             ("pebble-restart", "pebble", ["-random", "2", "-len", "40", "-seed", str(ctx.seed + 80), "-n", "90"]),
